@@ -716,17 +716,20 @@ theorem dns_response_ignored_unless_noerror (w : World) (isResp hasQ rcodeOk : B
   rcases h with h | h | h <;> simp [h]
 
 /-- a NOERROR response is a resolution with the TTL of its first answer — and a NOERROR response
-with an EMPTY answer section (NODATA) also is one, for `minFirefoxCacheTtl` = 120 s (the code's
+with an EMPTY answer section (NODATA) also is one, for `minFirefoxCacheTtl` (`w.minTtl`, 120 s in the code) (the code's
 comment "Has A/AAAA records. It is a real domain." is not what is tested). Recorded as the code has it. -/
 theorem dns_noerror_is_a_resolution (w : World) (qname : Str) (qtype : Nat) (key : Str) :
     (∀ t : Nat, t ≤ 31536000 →
       dnsResp w true true true qname qtype (some t) key = dnsUpdate w qname qtype ((t : Int) * 1000000000) key) ∧
-    dnsResp w true true true qname qtype none key = dnsUpdate w qname qtype 120000000000 key := by
-  unfold dnsResp minFirefoxCacheTtl
+    (w.minTtl ≤ 31536000 →
+      dnsResp w true true true qname qtype none key = dnsUpdate w qname qtype ((w.minTtl : Int) * 1000000000) key) := by
+  unfold dnsResp
   refine ⟨fun t ht => ?_, ?_⟩
   · have : ¬ ((31536000 : Int) < (t : Int)) := by omega
     simp [this]
-  · simp
+  · intro hm
+    have : ¬ ((31536000 : Int) < (w.minTtl : Int)) := by omega
+    simp [this]
 
 example : (hasKnowledge (dnsResp {} true true true "nodata.test.".toList 1 none []).1 (cacheKey "nodata.test".toList true)).2 = true := by decide
 example : (hasKnowledge (dnsResp {} true true false "nx.test.".toList 1 none []).1 (cacheKey "nx.test".toList true)).2 = false := by decide
